@@ -412,6 +412,7 @@ func (i *smrInst) Apply(ev string) string {
 	}
 	obs := "ok"
 	var eff *int64
+	acceptedNow := ""
 	i.lastKind = map[string]string{"prop": "ins", "propc": "ins", "vote": "high", "conf": "ins", "rb": "rb", "rbg": "rb"}[kind]
 	if kind == "conf" && i.accepted[parts[1]] {
 		i.lastKind = "dup"
@@ -437,6 +438,9 @@ func (i *smrInst) Apply(ev string) string {
 		if err := i.s.UpdateQcStatus(node); err != nil {
 			obs = "err"
 		} else {
+			if !i.accepted[p] {
+				acceptedNow = p
+			}
 			i.accepted[p] = true
 		}
 		i.confirmed[p] = true
@@ -453,6 +457,7 @@ func (i *smrInst) Apply(ev string) string {
 	default:
 		panic("c15: bad event " + ev)
 	}
+	probeLookups(i.u, i.t)
 	after := takeSnap(i.t)
 	switch kind {
 	case "prop", "propc":
@@ -497,6 +502,7 @@ func (i *smrInst) Apply(ev string) string {
 		}
 	}
 	i.lastNew = append(i.lastNew, transitionIssues(i.u, before, after, kind == "rb" || kind == "rbg")...)
+	i.lastNew = append(i.lastNew, acceptedNowIssues(i.u, after, acceptedNow)...)
 	if v := i.pm.GetCurrentView(); v < viewBefore {
 		i.lastNew = append(i.lastNew, issue{"pacemaker_monotone", "view_decreased", "t", fmt.Sprintf("pacemaker view went from %d to %d", viewBefore, v)})
 	}
